@@ -135,8 +135,9 @@ def d3(cx: Cx, ob: Ob) -> None:
         found = True
         if it != ("attr", me, "records"):
             # selection driven by the requested prefixes: sound only if a record named twice is kept once
-            looks_up = any(op(x) == "call" and callee_name(x) == "get_record" for x in subterms(elt)) or any(op(x) == "call" and callee_name(x) == "get_record" for c, _ in conds for x in subterms(c))
-            dedupe = any(op(x) == "cmp" and x[1] == "in" and pol is False for c, pol in conds for x in subterms(c)) or any(callee_name(x) in ("set", "fromkeys", "values") for x in subterms(recs) if op(x) == "call")
+            looks_up = any(op(x) == "call" and callee_name(x) == "get_record" for t_ in (elt, it) for x in subterms(t_)) or any(op(x) == "call" and callee_name(x) == "get_record" for c, _ in conds for x in subterms(c))
+            # de-duplication must be of RECORDS (a set of the requested prefixes does not help)
+            dedupe = any(op(x) == "cmp" and x[1] == "in" and pol is False and any(y == tgt for y in subterms(x[2])) for c, pol in conds for x in subterms(c)) or any(callee_name(x) in ("fromkeys", "values") for x in subterms(recs) if op(x) == "call")
             if looks_up and not dedupe:
                 ob.violate(
                     fn.qualname,
